@@ -5,16 +5,24 @@
    [rings_are_cycles], [geom_closed], [centroid_defined], [shifted], [oxy_eq], [qsum], ...) are in
    Model/Measure.v.
 
-   What is NOT proved here: that the shoelace sum of an arbitrary simple ring is the area of the
-   point set it encloses (and the analogous statement for the centroid).  That needs planar
-   topology (Jordan curve / a triangulation theorem).  It is proved for convex counter-clockwise
-   rings ([signed_area_ccw_nonneg], [signed_area_ccw_pos]: the area is the sum of the
-   non-negative areas of the triangles of the fan, which tile a convex polygon), and for general
-   valid lattice polygons it is covered by the correspondence run against two independent
-   point-set oracles (Pick counting and unit cells, Model/MeasureOracle.v).
+   Shoelace sum = area of the POINT SET (section "the point set" below, Proofs/Measure_slab.v): the
+   area of the point set is the exact slab functional [SetOpSpec.area_of] of C01 (sum of the
+   trapezoids of the slab decomposition whose witness is a member of the set under the definitional
+   membership [Planar.inG]).  Proved for every closed ring: - signed shoelace area = sum of
+   (winding number) * (trapezoid area) ([shoelace_is_winding_area]); hence |shoelace| = area_of
+   (inG polygon) for every ring whose winding number takes the values 0 / sigma only at the
+   trapezoid witnesses ([shoelace_is_slab_area]), and Area() = area_of (inG polygon) for polygons
+   with holes under pointwise nesting ([shoelace_is_slab_area_holes]); the hypotheses are
+   booleans ([slab_hypotheses], evaluated by the kernel in the Examples and by the extracted code
+   on every generated polygon of the correspondence run).  NOT proved: that every simple ring
+   satisfies the winding condition (alternation of edge directions in height order - the
+   Jordan-curve content); the convex case of the sign is [signed_area_ccw_nonneg].
+   The analogous statement for the centroid is not proved (unit-cell oracle in the run).
    Float rounding is not modelled: the theorems are about exact rational arithmetic. *)
 From Coq Require Import QArith Qabs ZArith List Bool Permutation.
 From SF Require Import Base.GeomAST Model.Measure Proofs.Measure_proofs.
+From SF Require Base.QKernel Base.Planar Model.SetOpSpec.
+From SF Require Import Proofs.Measure_slab.
 Import ListNotations.
 Open Scope Q_scope.
 
@@ -288,6 +296,51 @@ Proof.
 Qed.
 Print Assumptions sqrt_scale_invariant.
 
+(* ------------------------------------------------------------------ the point set *)
+
+(* for EVERY closed ring (simple or not), in any arrangement (L, P) that contains its edges:
+   minus the signed shoelace area is the sum over the trapezoids of the slab decomposition of
+   (winding number of the ring at the trapezoid's witness) * (area of the trapezoid) *)
+Theorem shoelace_is_winding_area : forall (L : list QKernel.seg) (P ps : list QKernel.pt),
+  incl (QKernel.ring_edges ps) L -> Planar.pts_closed ps = true ->
+  - ring_area_xy ps ==
+  cells_wsum (SetOpSpec.slab_cells L (Planar.events (Planar.vertex_set L P)))
+             (fun p => inject_Z (zwind (QKernel.ring_edges ps) p)).
+Proof. exact shoelace_is_winding_area_lemma. Qed.
+Print Assumptions shoelace_is_winding_area.
+
+(* a ring whose winding number is 0 or sigma at every trapezoid witness (sigma = -1:
+   counter-clockwise, +1: clockwise; true of simple rings, decidable): the absolute shoelace area
+   is the slab area of the point set of the polygon bounded by the ring *)
+Theorem shoelace_is_slab_area : forall (L : list QKernel.seg) (P : list QKernel.pt) ct (l : lineT Q) (sigma : Z),
+  incl (Planar.line_segs l) L -> Planar.pts_closed (Planar.line_pts l) = true -> (sigma = 1 \/ sigma = -1)%Z ->
+  winding_simple sigma (QKernel.ring_edges (Planar.line_pts l))
+                 (SetOpSpec.slab_cells L (Planar.events (Planar.vertex_set L P))) = true ->
+  Qabs (ring_area_xy (Planar.line_pts l)) == SetOpSpec.area_of L P (Planar.inG (GPoly (MkPoly ct [l]))).
+Proof. exact shoelace_is_slab_area_lemma. Qed.
+Print Assumptions shoelace_is_slab_area.
+
+(* polygon with holes: Area() of the model (|shell| - sum |holes|) is the slab area of the point
+   set, when every ring satisfies the winding condition and the nesting is valid at the witnesses
+   (a witness lies in at most one hole, and then in the shell) *)
+Theorem shoelace_is_slab_area_holes :
+  forall (L : list QKernel.seg) (P : list QKernel.pt) ct (sh : lineT Q) (hs : list (lineT Q)),
+  let cells := SetOpSpec.slab_cells L (Planar.events (Planar.vertex_set L P)) in
+  (forall r, In r (sh :: hs) ->
+     incl (Planar.line_segs r) L /\ Planar.pts_closed (Planar.line_pts r) = true /\
+     exists sigma, (sigma = 1 \/ sigma = -1)%Z /\ winding_simple sigma (QKernel.ring_edges (Planar.line_pts r)) cells = true) ->
+  nesting_ok sh hs cells = true ->
+  poly_area false None (MkPoly ct (sh :: hs)) == SetOpSpec.area_of L P (Planar.inG (GPoly (MkPoly ct (sh :: hs)))).
+Proof. exact shoelace_is_slab_area_holes_lemma. Qed.
+Print Assumptions shoelace_is_slab_area_holes.
+
+(* executable form: one boolean per polygon (in the arrangement of its own rings) *)
+Theorem slab_hypotheses_imply_area : forall ct (rings : list (lineT Q)),
+  slab_hypotheses (MkPoly ct rings) = true ->
+  poly_area false None (MkPoly ct rings) == slab_area (MkPoly ct rings).
+Proof. exact slab_hypotheses_sound. Qed.
+Print Assumptions slab_hypotheses_imply_area.
+
 (* ------------------------------------------------------------------ Examples (non-vacuity, tightness) *)
 
 Definition v (x y : Z) : vtx Q := Build_vtx (inject_Z x) (inject_Z y) 7 (-3).
@@ -361,3 +414,28 @@ Proof.
   - cbn [ex_poly poly_rings]. repeat constructor; vm_compute; discriminate.
   - right. vm_compute. discriminate.
 Qed.
+
+(* the point-set theorems on concrete non-convex polygons: the kernel evaluates the hypotheses *)
+Definition ex_L : polyT Q := MkPoly XY [ln [(0,0);(4,0);(4,2);(2,2);(2,5);(0,5);(0,0)]%Z].
+Definition ex_star : polyT Q := MkPoly XY [ln [(0,0);(5,2);(10,0);(7,4);(10,9);(5,6);(0,9);(3,4);(0,0)]%Z].
+Example ex_slab_L : slab_hypotheses ex_L = true /\ poly_area false None ex_L == slab_area ex_L /\ slab_area ex_L == 14.
+Proof.
+  assert (H : slab_hypotheses ex_L = true) by (vm_compute; reflexivity).
+  split; [exact H|]. split; [apply slab_hypotheses_sound, H|vm_compute; reflexivity].
+Qed.
+Example ex_slab_star : slab_hypotheses ex_star = true /\ poly_area false None ex_star == slab_area ex_star /\ slab_area ex_star == 38.
+Proof.
+  assert (H : slab_hypotheses ex_star = true) by (vm_compute; reflexivity).
+  split; [exact H|]. split; [apply slab_hypotheses_sound, H|vm_compute; reflexivity].
+Qed.
+Example ex_slab_hole : slab_hypotheses ex_poly = true /\ poly_area false None ex_poly == slab_area ex_poly /\ slab_area ex_poly == 20.
+Proof.
+  assert (H : slab_hypotheses ex_poly = true) by (vm_compute; reflexivity).
+  split; [exact H|]. split; [apply slab_hypotheses_sound, H|vm_compute; reflexivity].
+Qed.
+(* the winding condition is needed: for the bow-tie (0 0,4 4,4 0,0 4,0 0) the shoelace sum is 0 while
+   the point set (two triangles) has area 8 *)
+Example ex_slab_bowtie :
+  let bow := MkPoly XY [ln [(0,0);(4,4);(4,0);(0,4);(0,0)]%Z] in
+  slab_hypotheses bow = false /\ poly_area false None bow == 0 /\ slab_area bow == 8.
+Proof. vm_compute. repeat split; reflexivity. Qed.
